@@ -446,7 +446,8 @@ fn termination_family(seed: u64, tier: Tier) -> (Vec<(String, String)>, u64, Val
     let threshold = *p.pick(&[0.0, 1e-6, 0.01, 0.1, 1.0]);
     let is_global = p.chance(0.6);
     let max_time = *p.pick(&[0.5f64, 1.0, 30.0, 300.0]);
-    let max_gen = p.usize(1, steps + 5);
+    // (a generation limit of zero is legal: initial solutions only)
+    let max_gen = if p.chance(0.05) { 0 } else { p.usize(1, steps + 5) };
     let t_sample = MinVariation::<HCtx, Obj, Ind, String>::new_with_sample(sample, threshold, is_global, "s".to_string());
     let t_period = MinVariation::<HCtx, Obj, Ind, String>::new_with_period(period, threshold, is_global, "p".to_string());
     let t_time = MaxTime::<HCtx, Obj, Ind>::new(max_time);
@@ -469,7 +470,11 @@ fn termination_family(seed: u64, tier: Tier) -> (Vec<(String, String)>, u64, Val
     let mut history: Vec<Vec<f64>> = vec![];
     let mut id = 1u64;
     let mut level = 50.0 + p.f64() * 1000.0;
-    let kind = p.below(4);
+    // (kind 4: fitness of tiny magnitude but large relative spread, e.g. the last steps towards an optimum of zero)
+    let kind = p.below(5);
+    if kind == 4 {
+        level = 1e-16 * (0.1 + p.f64());
+    }
     let mut skipped = 0u64;
     for step in 0..steps {
         // new offspring with non-negative (cost-like) fitness
@@ -481,6 +486,10 @@ fn termination_family(seed: u64, tier: Tier) -> (Vec<(String, String)>, u64, Val
                     level
                 }
                 2 => (p.f64() * 1000.0).floor(),
+                4 => {
+                    level *= 1.0 - p.f64() * 0.7;
+                    level
+                }
                 _ => {
                     if p.chance(0.1) {
                         level *= 0.9;
